@@ -18,6 +18,8 @@ pub enum Source {
     /// arbitrary sorted entry set injected through an independently encoded v3 image:
     /// `len` entries whose deltas have exactly `width` significant bits in at least one place
     Entries { len: u16, width: u8, gen: u64, estimating: bool },
+    /// the same with entry counts that need a 3-byte count in the compressed form (65536 and above)
+    BigEntries { len: u32, width: u8, gen: u64, estimating: bool },
 }
 
 #[derive(Debug, Clone, Serialize, Deserialize)]
@@ -32,10 +34,13 @@ pub fn case_strategy() -> impl Strategy<Value = Case> {
         prop_oneof![3 => Just(9001u64), 1 => any::<u64>()].prop_filter("seed hash != 0", |s| refhash::seed_hash(*s) != 0),
         any::<bool>(),
         prop_oneof![
-            2 => (5u8..=10, prop_oneof![2 => Just(65535u16), 1 => any::<u16>()], prop_oneof![3 => 0u32..=40, 3 => 0u32..=5000], any::<u64>())
+            400 => (5u8..=10, prop_oneof![2 => Just(65535u16), 1 => any::<u16>()], prop_oneof![3 => 0u32..=40, 3 => 0u32..=5000], any::<u64>())
                 .prop_map(|(lg_k, p, n, stream)| Source::Sketch { lg_k, p, n, stream }),
-            3 => (prop_oneof![3 => 0u16..=40, 2 => 0u16..=4100], 1u8..=63, any::<u64>(), any::<bool>())
+            600 => (prop_oneof![3 => 0u16..=40, 2 => 0u16..=4100], 1u8..=63, any::<u64>(), any::<bool>())
                 .prop_map(|(len, width, gen, estimating)| Source::Entries { len, width, gen, estimating }),
+            // rare and large: the byte-count boundaries of the compressed entry count (255 / 256, 65535 / 65536)
+            2 => (prop_oneof![Just(255u32), Just(256), Just(257), Just(65535), Just(65536), Just(65537), 65536u32..=70000, 70000u32..=300000], 1u8..=45, any::<u64>(), any::<bool>())
+                .prop_map(|(len, width, gen, estimating)| Source::BigEntries { len, width, gen, estimating }),
         ],
     )
         .prop_map(|(seed, ordered, src)| Case { seed, ordered, src })
@@ -116,8 +121,13 @@ pub fn build(c: &Case) -> Result<Built, Fail> {
                 label: format!("theta:sketch:{}", if theta < spec::MAX_THETA { "estimating" } else { "exact" }),
             })
         }
-        Source::Entries { len, width, gen, estimating } => {
-            let entries = make_entries(*len as usize, *width, *gen);
+        Source::Entries { .. } | Source::BigEntries { .. } => {
+            let (len, width, gen, estimating) = match &c.src {
+                Source::Entries { len, width, gen, estimating } => (*len as usize, width, gen, estimating),
+                Source::BigEntries { len, width, gen, estimating } => (*len as usize, width, gen, estimating),
+                _ => unreachable!(),
+            };
+            let entries = make_entries(len, *width, *gen);
             let last = entries.last().copied().unwrap_or(0);
             let theta = if *estimating && last + 1 < spec::MAX_THETA { last + 1 + (SplitMix(*gen ^ 9).next() % 1000).min(spec::MAX_THETA - last - 2) } else { spec::MAX_THETA };
             let empty = entries.is_empty() && theta == spec::MAX_THETA;
